@@ -349,6 +349,21 @@ def _do_op(op, sandbox):
                 return {"raw": mask_creation_date(fd.read())}
         except OSError as e:
             return {"exc": "no-output:" + type(e).__name__}
+    if kind == "create" and op.get("out") is None:
+        # no output named: the metafile goes to the documented default place; WHERE it went is part of the result
+        before = set(os.listdir(sandbox))
+        oc = drive.create(op["route"], p(op["path"]), None, piece_length=op.get("pl"), progress=op.get("progress", 0),
+                          cli_prefix=op.get("prefix") or ())
+        if not oc.ok:
+            return {"exc": oc.excname()}
+        where = os.path.relpath(os.path.abspath(oc.outfile), sandbox)
+        new_here = sorted(set(os.listdir(sandbox)) - before)
+        res = {"raw": mask_creation_date(oc.raw), "where": where if not where.startswith("..") else "<outside the sandbox>",
+               "new_entries_in_cwd": new_here}
+        for n in new_here:
+            if n.endswith(".torrent"):
+                os.remove(os.path.join(sandbox, n))
+        return res
     if kind == "create":
         out = p(op["out"])
         oc = drive.create(op["route"], p(op["path"]), out, piece_length=op.get("pl"), progress=op.get("progress", 0),
@@ -397,6 +412,7 @@ def serve():
     import pickle
     import struct
     env.install_enum_order("sorted")
+    drive._mods()          # the package is imported where the process STARTS, before any change of directory
     inp, out = sys.stdin.buffer, os.fdopen(os.dup(1), "wb")
     devnull = os.open(os.devnull, os.O_WRONLY)
     os.dup2(devnull, 1)
@@ -420,11 +436,11 @@ def serve():
 
 
 class _Server:
-    def __init__(self):
+    def __init__(self, cwd=None):
         code = _SERVER % {"verif": VERIF, "repo": REPO}
         envv = dict(os.environ, PYTHONHASHSEED="0", PYTHONDONTWRITEBYTECODE="1")
         self.p = subprocess.Popen([sys.executable, "-B", "-c", code], stdin=subprocess.PIPE, stdout=subprocess.PIPE,
-                                  stderr=subprocess.DEVNULL, env=envv)
+                                  stderr=subprocess.DEVNULL, env=envv, cwd=cwd)
 
     def call(self, op, sandbox):
         import pickle
@@ -447,7 +463,7 @@ class _Server:
 
 
 def _fresh(op, sandbox):
-    s = _Server()
+    s = _Server(cwd=sandbox)        # a fresh interpreter started where the user is; the long-lived one was started elsewhere
     try:
         return s.call(op, sandbox)
     finally:
@@ -511,6 +527,9 @@ class C09:
             fresh_id[0] += 1
             out = f"meta/m{fresh_id[0]}.torrent"
             metas.append((out, ver))
+            if rng.random() < 0.15:
+                metas.pop()
+                out = None               # default output location (the current directory)
             return {"op": "create", "route": route, "path": "p", "out": out,
                     "pl": rng.choice([None, None, 14, 16384, 15, 16]), "progress": rng.choice([0, 1, 2]),
                     "prefix": rng.choice([None, None, ["-q"], ["-v"]])}
@@ -675,6 +694,8 @@ class C09:
                 counters[op["op"] + "_steps"] = counters.get(op["op"] + "_steps", 0) + 1
                 if op.get("meta", "").endswith(("unsafe.torrent", "garbage.torrent", "nolength.torrent", "noroot.torrent", "metabad")):
                     counters["failing_operation_steps"] = counters.get("failing_operation_steps", 0) + 1
+                if op["op"] == "create" and op.get("out") is None:
+                    counters["create_at_default_location_steps"] = counters.get("create_at_default_location_steps", 0) + 1
                 if op["op"] == "create" and op["route"] == "config":
                     counters["config_file_create_steps"] = counters.get("config_file_create_steps", 0) + 1
                 if op["op"] == "create":
